@@ -12,7 +12,7 @@ SPEC = {
     "gen": ["attrs", "sews2"],
     "required_theorems": [
         # Props/C01Gen2.lean: the translated CMap2::one_sew / one_unsew ARE the model's oneSew2 / oneUnsew2
-        "C01_gen_oneSew2", "C01_gen_oneUnsew2",
+        "C01_gen_oneSew2", "C01_gen_oneUnsew2", "C01_gen_twoSew2", "C01_gen_twoUnsew2",
         # Props/C04Gen.lean: the translated AttrSparseVec::merge / split ARE the model's mergeS / splitS (program equality)
         "C04_gen_merge_dispatch", "C04_gen_split_dispatch", "C04_gen_mergeS", "C04_gen_splitS", "C04_gen_merge_run", "C04_gen_split_run","C04_oneSew2_effect", "C04_oneUnsew2_effect", "C04_twoSew2_both", "C04_twoSew2_left", "C04_twoSew2_right",
                           "C04_twoSew2_free", "C04_twoUnsew2_effect", "C04_twoSew2_refuses", "C04_same_cell_value_is_kept",
